@@ -126,6 +126,12 @@ type Scenario struct {
 	MidMs int `json:"midMs,omitempty"`
 	// NotifHoldMs: the observe callback keeps its notification for this long before it returns (C12)
 	NotifHoldMs int `json:"notifHoldMs,omitempty"`
+	// PlainFollowUp: the server application answers the follow-up GETs that fetch the rest of a
+	// block-wise notification without an ETag option (block 0, the notification itself, has one) - a
+	// server that tags its notifications only. Without ETags on the follow-up blocks a change of the
+	// resource in the middle of a transfer cannot be noticed, so generators give such scenarios at most
+	// one notification per observation.
+	PlainFollowUp bool `json:"plainFollowUp,omitempty"`
 }
 
 // Body is the position-dependent pseudo-random body for (seed, n): never zeros, so that a block
@@ -160,6 +166,9 @@ type NotifRec struct {
 	BodyOK  bool
 	Code    int
 	Changed string // C12: the notification changed while the callback was running
+	// ETagBad: the body is a complete version of the resource but the ETag option is not the one the
+	// server sent that version with (C04: "with the message's other options preserved")
+	ETagBad string
 }
 
 type HandlerRec struct {
@@ -442,7 +451,11 @@ func Run(t *testing.T, sc Scenario, track bool) (tr Trace) {
 					obsMu.Lock()
 					res := resources[rec.Op]
 					obsMu.Unlock()
-					_ = setResponse(codes.Content, message.AppOctets, bytes.NewReader(res.body), message.Option{ID: message.ETag, Value: etagOf(rec.Op, res.version)})
+					if sc.PlainFollowUp {
+						_ = setResponse(codes.Content, message.AppOctets, bytes.NewReader(res.body))
+					} else {
+						_ = setResponse(codes.Content, message.AppOctets, bytes.NewReader(res.body), message.Option{ID: message.ETag, Value: etagOf(rec.Op, res.version)})
+					}
 				default:
 					code := codes.Content
 					if rq.Code() == codes.POST || rq.Code() == codes.PUT {
@@ -719,9 +732,27 @@ func Run(t *testing.T, sc Scenario, track bool) (tr Trace) {
 					mu.Lock()
 					// any complete representation the server ever had is acceptable (a follow-up GET may
 					// legitimately see a newer state); a partial or mixed body is not
-					nr.BodyOK = bytes.Equal(b, Body(i*2+1, op.Down))
-					for k := 1; k <= op.Notifs && !nr.BodyOK; k++ {
-						nr.BodyOK = bytes.Equal(b, Body(i*1000+k, op.NotifLen))
+					// (two versions may have the same bytes - equal lengths and, for operation 0, equal
+					// generator seeds: every version with these bytes is a candidate)
+					var versions []int
+					if bytes.Equal(b, Body(i*2+1, op.Down)) {
+						versions = append(versions, 0)
+					}
+					for k := 1; k <= op.Notifs; k++ {
+						if bytes.Equal(b, Body(i*1000+k, op.NotifLen)) {
+							versions = append(versions, k)
+						}
+					}
+					nr.BodyOK = len(versions) > 0
+					if nr.BodyOK && len(b) > 0 && nr.Code == int(codes.Content) {
+						et, err := n.ETag()
+						match := false
+						for _, v := range versions {
+							match = match || (err == nil && bytes.Equal(et, etagOf(i, v)))
+						}
+						if !match {
+							nr.ETagBad = fmt.Sprintf("ETag %x (%v), version(s) %v of the resource were sent with %x...", et, err, versions, etagOf(i, versions[0]))
+						}
 					}
 					_ = first
 					mu.Unlock()
